@@ -319,10 +319,46 @@ func (e *env) readBack(name string, st, et time.Time, status int) string {
 	return coqStored(status, out, agg)
 }
 
+// cbytes prints a byte string as a Coq term; long runs of one byte are run-length encoded
+// (Coq cannot parse list literals with tens of thousands of elements).
+func cbytes(b []byte) string {
+	if len(b) < 512 {
+		return lib.Bytes(b)
+	}
+	var parts []string
+	i := 0
+	for i < len(b) {
+		j := i
+		for j < len(b) && b[j] == b[i] {
+			j++
+		}
+		if j-i >= 64 {
+			parts = append(parts, fmt.Sprintf("repeat %d (N.to_nat %d)", b[i], j-i))
+			i = j
+			continue
+		}
+		// literal chunk up to the next long run
+		k := i
+		for k < len(b) {
+			m := k
+			for m < len(b) && b[m] == b[k] {
+				m++
+			}
+			if m-k >= 64 {
+				break
+			}
+			k = m
+		}
+		parts = append(parts, lib.Bytes(b[i:k]))
+		i = k
+	}
+	return "(" + strings.Join(parts, " ++ ") + ")%list"
+}
+
 func parseGroupsGo(body []byte) string {
 	items := []string{}
 	err := convert.ParseGroups(bytes.NewReader(body), func(name []byte, val int) {
-		items = append(items, lib.Pair(lib.Bytes(append([]byte{}, name...)), lib.Z(int64(val))))
+		items = append(items, lib.Pair(cbytes(append([]byte{}, name...)), lib.Z(int64(val))))
 	})
 	return lib.Pair(lib.List(items), lib.Bool(err == nil))
 }
@@ -339,7 +375,7 @@ func parseLinesGo(body []byte) string {
 	sort.Slice(l, func(i, j int) bool { return bytes.Compare(l[i].k, l[j].k) < 0 })
 	items := []string{}
 	for _, x := range l {
-		items = append(items, lib.Pair(lib.Bytes(x.k), lib.N(uint64(x.v))))
+		items = append(items, lib.Pair(cbytes(x.k), lib.N(uint64(x.v))))
 	}
 	return lib.Pair(lib.List(items), lib.Bool(err == nil))
 }
@@ -355,7 +391,7 @@ func run(in Input) (res lib.Result) {
 	if in.Raw != nil || in.Class == "raw" {
 		coq := "{| c_ms := []; c_text_ok := false; c_meta := None; c_groups := None; c_lines := None; c_trie := None; c_tree := None; " +
 			"c_job := None; c_remote := None; c_direct := None; c_go_groups := None; c_go_lines := None; c_raw := " +
-			lib.Some("("+lib.Bytes(in.Raw)+", "+parseGroupsGo(in.Raw)+", "+parseLinesGo(in.Raw)+")") + " |}"
+			lib.Some("("+cbytes(in.Raw)+", "+parseGroupsGo(in.Raw)+", "+parseLinesGo(in.Raw)+")") + " |}"
 		return lib.Result{Coq: coq, NonTrivial: false, Feat: map[string]interface{}{"class": "raw", "raw_len": len(in.Raw)}}
 	}
 	e.counter++
